@@ -61,6 +61,12 @@ def run(tier, seed):
         sp = SPELL[sc][0]
         texts += ["3 m %s" % sp, "3 s %s" % sp, "12 degC -> %s m" % sp, "12 degC -> m %s" % sp, "12 degC -> 2 %s" % sp,
                   "1 m -> %s" % sp, "1 kg %s -> K" % sp, "(2 K) %s" % sp, "300 K -> %s meter" % sp, "5 %s -> %s hex" % (sp, sp)]
+    # a scale operator ANYWHERE inside a compound target (the specification refuses all of them: Query.HasDegree)
+    for sc in scales:
+        sp = rng.choice(SPELL[sc])
+        texts += ["300 K -> x = 2 %s" % sp, "300 K -> x = %s" % sp, "300 K -> 3 (2 %s)" % sp, "300 K -> (2 %s)" % sp, "300 K -> -(2 %s)" % sp,
+                  "300 K -> K / (1 %s)" % sp, "300 K -> (5 %s)^2" % sp, "300 K -> y = x = 1 %s" % sp, "300 K -> x = 3 K + 2 %s" % sp,
+                  "300 K -> 2 K %s" % sp, "300 K -> x = -(7 %s)" % sp, "300 K^2 -> (1 %s) (1 %s)" % (sp, sp), "1 -> (2 %s) / (3 %s)" % (sp, sp)]
     # compound targets that START with a scale: TLC enumerates every tail of <= 2 lexemes; all must be refused
     tails = ["/ s", "* meter", "^2", "(meter)", "degC", "+ 1 K", "%", "m", "2", "- 3", "| 2", ", m", "; m", "= 3", "mod 2", "<< 1",
              "->", "hex", "'a'", ")", "(", "°F", "K", "per s", "1e3", "of", "//c", "/*c*/", "+05:30"]
